@@ -104,6 +104,9 @@ OUT_PRE = ATT_PRE + [
     (r'auto attr = attribute_at\( data\.attribute_table_index\(\) \);', '', 1),
     (r'attr\.access\( read, data\.attribute_table_index\(\) \)', 'ACCESS( &read, data.attribute_table_index() )', 1),
     (r'connection\.dequeue_indication_or_confirmation\(\)', 'dequeue_indication_or_confirmation( connection )', 1),
+    # any other operation on the connection's notification queue from here would be a second writer of the 'outstanding indication' state (C11)
+    (r'connection\.(?:indication_confirmed|clear_indications_and_confirmations)\(\)', 'conn_queue_mutation( connection )', '*'),
+    (r'connection\.(?:queue_indication|queue_notification)\( ', 'conn_queue_mutation2( connection, ', '*'),
     (r'client_configurations\( connection \)\.flags\( data\.client_characteristic_configuration_index\(\) \)', 'cfg_flags( data.client_characteristic_configuration_index() )', 1),
     (r'data\.attribute_table_index\(\)', 'data.attribute_table_index_', '+'),
     (r'data\.client_characteristic_configuration_index\(\)', 'data.client_characteristic_configuration_index_', '+'),
@@ -122,7 +125,9 @@ struct pending_entry { enum notification_queue_entry_type first; size_t second; 
 struct notification_data { size_t attribute_table_index_; size_t client_characteristic_configuration_index_; };
 /* the link layer's notification queue (C11/C12), the type-level table characteristic -> value attribute (C10), the CCCD store (C09), the handle mapping (C04): abstract */
 int W_kind; size_t W_cfg_index, W_attr_index, W_ccc_index; uint16_t W_flags, W_handle; bool W_enc; int W_ps; int W_rc; size_t W_read_size;
-size_t G_fnd_arg, G_flags_arg, G_hbi_arg;
+size_t G_fnd_arg, G_flags_arg, G_hbi_arg; size_t G_queue_mutations;
+static inline void conn_queue_mutation(struct conn* c) { ++G_queue_mutations; }
+static inline bool conn_queue_mutation2(struct conn* c, size_t i) { ++G_queue_mutations; return true; }
 struct pending_entry dequeue_indication_or_confirmation(struct conn* c)
 __CPROVER_ensures((int)__CPROVER_return_value.first == W_kind && __CPROVER_return_value.second == W_cfg_index) __CPROVER_assigns();
 struct notification_data find_notification_data_by_index(size_t i)
@@ -146,11 +151,13 @@ __CPROVER_ensures(G_acc_calls <= 1)
 __CPROVER_ensures(*out_size != 0 ==> (OUT_SENT && output[0] == (W_kind == notification_queue_entry_type_notification ? 0x1B : 0x1D) && output[1] == (W_handle & 0xff) && output[2] == (W_handle >> 8)
                                        && G_hbi_arg == W_attr_index && *out_size == 3 + G_acc_out_size))
 __CPROVER_ensures(OUT_SENT ==> *out_size != 0)
-__CPROVER_assigns(*out_size, __CPROVER_object_upto(output, W_out_size), G_fnd_arg, G_flags_arg, G_hbi_arg,
+/* C11: the only operation on the notification queue is the one dequeue; in particular the outstanding indication is not confirmed from here */
+__CPROVER_ensures(G_queue_mutations == 0)
+__CPROVER_assigns(*out_size, __CPROVER_object_upto(output, W_out_size), G_fnd_arg, G_flags_arg, G_hbi_arg, G_queue_mutations,
                   G_acc)
 {{l2cap_output}}
 void h_l2cap_output(void) { SETUP; W_kind = nondet_int(); W_cfg_index = nondet_size(); W_attr_index = nondet_size(); W_ccc_index = nondet_size(); W_flags = nondet_u16(); W_handle = nondet_u16();
-  W_enc = nondet_bool(); W_ps = nondet_int(); __CPROVER_assume(W_ps >= 0 && W_ps <= 3); G_conn_sec.is_encrypted = W_enc; G_conn_sec.pairing_status = W_ps; G_acc_calls = 0; G_N = nondet_size();
+  W_enc = nondet_bool(); W_ps = nondet_int(); __CPROVER_assume(W_ps >= 0 && W_ps <= 3); G_conn_sec.is_encrypted = W_enc; G_conn_sec.pairing_status = W_ps; G_acc_calls = 0; G_N = nondet_size(); G_queue_mutations = 0;
   l2cap_output(self, out, &os, &c); BT_CANARY(); }
 """
 UNITS.append(dict(name='l2cap_output', extracts={k: v for k, v in OUT_EX.items() if k not in ('access_to_att', 'check_handle', 'exchange', 'l2cap_input')},
